@@ -57,6 +57,8 @@ func (u *verifUpstream) RoundTrip(req *http.Request) (*http.Response, error) {
 	case 1:
 		return nil, errors.New("connection refused")
 	case 2:
+		// an upstream that answers 503 has read the request
+		_, _ = io.Copy(io.Discard, req.Body)
 		u.lastStatus = 503
 		return &http.Response{StatusCode: 503, Body: io.NopCloser(bytes.NewReader(nil)), Header: http.Header{}}, nil
 	}
